@@ -46,6 +46,7 @@ type spec struct {
 	Out            string   `json:"out"`              // file name under lean/MidiModel/Generated/
 	Imports        []string `json:"imports"`          // further Lean modules to import (translations of the extern packages)
 	Extern         []string `json:"extern_pkgs"`      // packages (relative to the module) whose functions are emitted elsewhere
+	Opaque         []string `json:"opaque_funcs"`     // functions (FullName) outside the subset that stay uninterpreted: a call is an application of a section variable `ext_<name>`, every definition that calls one takes it as a parameter
 	ExternStructs  []string `json:"extern_structs"`   // structures (Lean names) that an imported translation already declares
 	StringsAsBytes bool     `json:"strings_as_bytes"` // a Go string is the list of its bytes (conversions to and from []byte are the identity, literals are spelled out); without it strings are opaque
 	NilIsEmpty     bool     `json:"nil_is_empty"`     // translate `slice == nil` as "is empty" (sound where the slice is never empty-but-non-nil)
@@ -271,6 +272,34 @@ func main() {
 		fmt.Printf("import %s\n", im)
 	}
 	fmt.Printf("set_option maxRecDepth 4000\nset_option linter.unusedVariables false\nnamespace %s\n\n", sp.Namespace)
+	// uninterpreted functions: section variables, parameters of every definition that mentions them
+	for _, oq := range sp.Opaque {
+		var fn *types.Func
+		for _, p := range t.l.cache {
+			for _, o := range p.info.Defs {
+				if f, ok := o.(*types.Func); ok && f.FullName() == oq {
+					fn = f
+				}
+			}
+		}
+		if fn == nil {
+			fmt.Fprintf(os.Stderr, "go2lean: opaque function %s not found\n", oq)
+			os.Exit(1)
+		}
+		sig := fn.Type().(*types.Signature)
+		var ts []string
+		if sig.Recv() != nil {
+			ts = append(ts, t.leanType(nil, sig.Recv().Type()))
+		}
+		for i := 0; i < sig.Params().Len(); i++ {
+			ts = append(ts, t.leanType(nil, sig.Params().At(i).Type()))
+		}
+		var rs []string
+		for i := 0; i < sig.Results().Len(); i++ {
+			rs = append(rs, t.leanType(nil, sig.Results().At(i).Type()))
+		}
+		fmt.Printf("-- `%s`: outside the translated subset, uninterpreted\nvariable (%s : %s)\n\n", oq, opaqueName(oq), strings.Join(append(ts, strings.Join(rs, " × ")), " → "))
+	}
 	// structs: dependencies first; a field of struct type is kept only if a translated function mentions it
 	t.usedFields = map[*types.Var]bool{}
 	for _, f := range t.order {
@@ -684,6 +713,12 @@ func (t *tr) pkgVarValue(n ast.Node, v *types.Var) string {
 	return t.atom(init)
 }
 
+func opaqueName(full string) string {
+	r := strings.NewReplacer("(", "", ")", "", "*", "", "/", "_", ".", "_", "-", "_")
+	parts := strings.Split(full, "/")
+	return "ext_" + r.Replace(parts[len(parts)-1])
+}
+
 func (t *tr) index(p *pkgInfo) {
 	for _, f := range p.files {
 		for _, d := range f.Decls {
@@ -1067,6 +1102,10 @@ func (t *tr) leanType(n ast.Node, ty types.Type) string {
 				return "(List Nat)"
 			}
 			return "String"
+		case types.Float64:
+			if len(t.sp.Opaque) > 0 {
+				return "Float" // only passed on to uninterpreted functions: no arithmetic on it is translated
+			}
 		}
 	case *types.Slice:
 		return "(List " + t.leanType(n, u.Elem()) + ")"
@@ -1116,6 +1155,10 @@ func (t *tr) zero(n ast.Node, ty types.Type) string {
 				return "([] : List Nat)"
 			}
 			return "\"\""
+		case types.Float64:
+			if len(t.sp.Opaque) > 0 {
+				return "(0 : Float)"
+			}
 		}
 	case *types.Slice:
 		return "([] : " + t.leanType(n, ty) + ")"
@@ -1124,6 +1167,9 @@ func (t *tr) zero(n ast.Node, ty types.Type) string {
 	case *types.Pointer:
 		if _, ok := u.Elem().Underlying().(*types.Struct); ok {
 			return "({} : " + t.leanType(n, ty) + ")" // a nil pointer to a struct is not distinguished from the zero struct
+		}
+		if _, ok := u.Elem().Underlying().(*types.Slice); ok {
+			return "([] : " + t.leanType(n, ty) + ")"
 		}
 	case *types.Struct:
 		return "({} : " + t.leanType(n, ty) + ")"
@@ -2244,6 +2290,11 @@ func (t *tr) callStmt(sb *strings.Builder, c *ast.CallExpr, lhs []ast.Expr, defi
 	if g == nil || t.funcs[g] == nil {
 		return false
 	}
+	for _, oq := range t.sp.Opaque {
+		if g.FullName() == oq {
+			return false // an uninterpreted function: an expression
+		}
+	}
 	sig := g.Type().(*types.Signature)
 	if len(t.outParams(g)) > 0 {
 		tmp, nres := t.outCall(sb, c, g, ind)
@@ -2267,14 +2318,52 @@ func (t *tr) callStmt(sb *strings.Builder, c *ast.CallExpr, lhs []ast.Expr, defi
 		}
 		sv, ok := t.structVar(sel.X)
 		ptrRecv = t.mutatesRecv(g)
+		recvIsVar := false
 		if !ok {
 			if ptrRecv {
-				t.fail(c, "method call on %s", exprString(sel.X))
+				// a variable of type pointer to a named slice (`t *Track`): the slice, re-bound after the call
+				id, isId := sel.X.(*ast.Ident)
+				pt, isPtr := t.p.info.Types[sel.X].Type.Underlying().(*types.Pointer)
+				if !isId || !isPtr {
+					t.fail(c, "method call on %s", exprString(sel.X))
+				}
+				if _, isSl := pt.Elem().Underlying().(*types.Slice); !isSl {
+					t.fail(c, "method call on %s", exprString(sel.X))
+				}
+				_ = id
+				recvIsVar = true
 			}
 			sv = t.atom(sel.X) // a value receiver that is not a struct variable (a named slice type ...)
 		}
 		recvVar = sv
 		args = append(args, sv)
+		if recvIsVar {
+			call := t.funcName(g) + " " + strings.Join(append(args, func() []string {
+				var as []string
+				np := sig.Params().Len()
+				for i, a := range c.Args {
+					if sig.Variadic() && !c.Ellipsis.IsValid() && i >= np-1 {
+						break
+					}
+					as = append(as, t.atom(a))
+				}
+				if sig.Variadic() && !c.Ellipsis.IsValid() {
+					var vs []string
+					for _, a := range c.Args[np-1:] {
+						vs = append(vs, t.expr(a))
+					}
+					as = append(as, "["+strings.Join(vs, ", ")+"]")
+				}
+				return as
+			}()...), " ")
+			if sig.Results().Len() != 0 || lhs != nil {
+				t.fail(c, "result of a method that writes through a pointer variable")
+			}
+			tmp := t.fresh("res")
+			fmt.Fprintf(sb, "%slet %s ← %s\n", ind, tmp, call)
+			t.assignTo(sb, sel.X, tmp, false, ind, c)
+			return true
+		}
 	}
 	for _, a := range c.Args {
 		args = append(args, t.atom(a))
@@ -2874,6 +2963,20 @@ func (t *tr) callExpr(c *ast.CallExpr, tv types.TypeAndValue) string {
 		}
 	}
 	g := t.callee(t.p, c)
+	if g != nil {
+		for _, oq := range t.sp.Opaque {
+			if g.FullName() == oq {
+				var args []string
+				if g.Type().(*types.Signature).Recv() != nil {
+					args = append(args, t.atom(c.Fun.(*ast.SelectorExpr).X))
+				}
+				for _, a := range c.Args {
+					args = append(args, t.atom(a))
+				}
+				return "(" + opaqueName(oq) + " " + strings.Join(args, " ") + ")"
+			}
+		}
+	}
 	if g == nil || t.funcs[g] == nil {
 		t.fail(c, "call of %s (not part of the translated module code)", exprString(c.Fun))
 	}
